@@ -100,13 +100,15 @@ func (c *RPCClient) SendRequestAsync(ctx context.Context, addr string, req *tikv
 			pri:                 req.GetResourceControlContext().GetOverridePriority(),
 			reqArriveAt:         time.Now(),
 		}
-		stop func() bool
+		// stop is read by the injected post action, which may already run (in the executor's goroutine) while
+		// SendRequestAsync is still storing it.
+		stop atomic.Pointer[func() bool]
 	)
 
 	// defer post actions
 	entry.cb.Inject(func(resp *tikvrpc.Response, err error) (*tikvrpc.Response, error) {
-		if stop != nil {
-			stop()
+		if f := stop.Load(); f != nil {
+			(*f)()
 		}
 
 		elapsed := time.Since(entry.reqArriveAt)
@@ -140,11 +142,12 @@ func (c *RPCClient) SendRequestAsync(ctx context.Context, addr string, req *tikv
 		return resp, WrapErrConn(err, connPool)
 	})
 
-	stop = context.AfterFunc(ctx, func() {
+	stopFn := context.AfterFunc(ctx, func() {
 		logutil.Logger(ctx).Debug("async send request cancelled (context done)", zap.String("to", addr), zap.Error(ctx.Err()))
 		entry.error(ctx.Err())
 		atomic.StoreInt32(&entry.canceled, 1)
 	})
+	stop.Store(&stopFn)
 
 	batchConn := connPool.batchConn
 	if val, err := util.EvalFailpoint("mockBatchCommandsChannelFullOnAsyncSend"); err == nil {
